@@ -120,3 +120,73 @@ package consensus
 //@   requires init: h.initialState.InitialHeight >= 1 && h.genDoc.InitialHeight == h.initialState.InitialHeight
 //@   requires store: (imethod(h.store, Height) == 0 || imethod(h.store, Height) >= h.initialState.InitialHeight) && (h.initialState.LastBlockHeight == 0 || h.initialState.LastBlockHeight >= h.initialState.InitialHeight)
 //@   ensures ready: result == nil ==> abciPhase == 0
+
+// ---- C17: the consensus reactor acts on a peer's message only after the message passed its own ValidateBasic ----
+//@ import p2p github.com/tendermint/tendermint/p2p
+//@ ghost var validMsg int
+//@ extern Message.ValidateBasic
+//@   assigns validMsg
+//@   sets validMsg = ite(result == nil, payload(self), 0) when true
+//@ extern log.Logger.Debug
+//@   assigns nothing
+//@ extern p2p.Switch.StopPeerForError
+//@   assigns except(consensus)
+//@ extern p2p.Peer.Get
+//@   assigns nothing
+//@ extern p2p.Peer.ID
+//@   assigns nothing
+//@ func MsgFromProto
+//@   trusted
+//@   assigns nothing
+//@ func PeerState.ApplyNewRoundStepMessage
+//@   trusted
+//@   assigns except(types)
+//@ func PeerState.ApplyNewValidBlockMessage
+//@   trusted
+//@   assigns except(types)
+//@ func PeerState.ApplyHasVoteMessage
+//@   trusted
+//@   assigns except(types)
+//@ func PeerState.ApplyProposalPOLMessage
+//@   trusted
+//@   assigns except(types)
+//@ func PeerState.ApplyVoteSetBitsMessage
+//@   trusted
+//@   assigns except(types)
+//@ func PeerState.SetHasProposal
+//@   trusted
+//@   assigns except(types)
+//@ func PeerState.SetHasProposalBlockPart
+//@   trusted
+//@   assigns except(types)
+//@ func PeerState.SetHasVote
+//@   trusted
+//@   assigns except(types)
+//@ func PeerState.EnsureVoteBitArrays
+//@   trusted
+//@   assigns except(types)
+//@ import cstypes github.com/tendermint/tendermint/consensus/types
+//@ extern cstypes.HeightVoteSet.SetPeerMaj23
+//@   assigns except(consensus)
+//@ extern cstypes.HeightVoteSet.Prevotes
+//@   assigns nothing
+//@ extern cstypes.HeightVoteSet.Precommits
+//@   assigns nothing
+//@ extern types.VoteSet.BitArrayByBlockID
+//@   assigns nothing
+//@ extern p2p.TrySendEnvelopeShim
+//@   assigns except(consensus)
+//@ extern p2p.Wrapper.Wrap
+//@   assigns nothing
+//@ extern service.BaseService.IsRunning
+//@   assigns nothing
+//@ import service github.com/tendermint/tendermint/libs/service
+//@ func Reactor.ReceiveEnvelope
+//@   atcall PeerState.ApplyNewRoundStepMessage valid: validMsg == ref(arg1)
+//@   atcall PeerState.ApplyNewValidBlockMessage valid: validMsg == ref(arg1)
+//@   atcall PeerState.ApplyHasVoteMessage valid: validMsg == ref(arg1)
+//@   atcall PeerState.ApplyProposalPOLMessage valid: validMsg == ref(arg1)
+//@   atcall PeerState.ApplyVoteSetBitsMessage valid: validMsg == ref(arg1)
+//@   atcall PeerState.SetHasProposal valid: validMsg != 0
+//@   atcall PeerState.SetHasProposalBlockPart valid: validMsg != 0
+//@   atcall PeerState.SetHasVote valid: validMsg != 0
